@@ -15,6 +15,14 @@ pub fn verify_last_layer(
             &coefficients,
             Felt::ONE.field_div(&NonZeroFelt::from_felt_unchecked(query.x_inv_value)),
         );
+        #[cfg(swiftness_verif)]
+        swiftness_transcript::verif::ev("fri.last")
+            .f("idx", &query.index)
+            .f("x_inv", &query.x_inv_value)
+            .f("y", &query.y_value)
+            .f("eval", &horner_eval_result)
+            .fs("coefs", coefficients.iter())
+            .emit();
         if horner_eval_result != query.y_value {
             return Err(Error::QueryMismatch { expected: query.y_value, got: horner_eval_result });
         }
